@@ -1,5 +1,5 @@
 """C02 — SIMD back-ends equal the portable one: routing and table clauses (DESIGN §4 C02)."""
-from ..engines import dispatch_rules, simd_rules, loadwidth, roundbudget, row_coverage
+from ..engines import dispatch_rules, simd_rules, lanepair, loadwidth, roundbudget, row_coverage
 from ..progs import programs
 
 
@@ -15,3 +15,5 @@ def run(rep, tier):
         rep.call(row_coverage.group_tail, rep, prog, "C02.kernel-rows")
         rep.call(loadwidth.guard_adequacy, rep, prog, "C02.loadwidth", loadwidth.FLOOR.get(cfg, 50))
         rep.call(roundbudget.budget, rep, prog, "C02.round-budget", {"x86": 110, "arm": 60, "wasm": 55}.get(cfg, 40))
+        if cfg.startswith("x86"):
+            rep.call(lanepair.pairing, rep, prog, "C02.lane-pairing")
